@@ -42,6 +42,8 @@ MAP = [  # (substring of the commit subject, property)
  ("bare methods over the dict protocols crashed on a simple-typed argument", "C10"),
  ("Date type with a custom format raised AttributeError", "C10"),
  ("duration too large for timedelta escaped", "C10"),
+ ("ISO date with an offset and an impossible month or day escaped", "C10"),
+ ("MessagePack wrapper key that is not valid UTF-8 escaped", "C10"),
  ("date with a time zone suffix and an impossible day or month", "C10"),
  ("SOAP multiref href pointing to no element escaped as KeyError", "C10"),
  ("SOAP multiref href to an enclosing element recursed", "C10"),
